@@ -6,8 +6,10 @@
    the lowest normal binade); [fin_Q f s M e] is that number as a rational.  [is_nearest f v q] is the
    executable checker the judge applies to the bit pattern the implementation returned; [rounds_to f v q]
    is the mathematical statement "v is a correctly rounded image of q". *)
+From Coq Require Import Reals Qreals.
+From Flocq Require Import Core.Zaux Core.Raux Core.Defs Core.Generic_fmt Core.FLT Core.Round_NE.
 From Coq Require Import List ZArith QArith Qabs String.
-From MechV Require Import Base.Sexp Base.Obs Model.Literal Proofs.LiteralP.
+From MechV Require Import Base.Sexp Base.Obs Model.Literal Proofs.LiteralP Proofs.LiteralRoundP Proofs.LiteralFlocqP.
 Import ListNotations.
 Local Open Scope Z_scope.
 
@@ -241,3 +243,127 @@ Example C13_example_judge :
     = v_bad "not-the-denoted-value" (Lx [Ax "nearest"; Ax "f64"; Zx 4350; Zx 10]).
 Proof. vm_compute. repeat split; reflexivity. Qed.
 Print Assumptions C13_example_judge.
+
+(* ---------------------------------------------------------------- binary32 bit patterns *)
+(* 12. The same round-trip for binary32: every canonical (sign, M, e) of f32 (and infinity) is a 32-bit pattern
+       that decodes to itself; with C13_bits_roundtrip, for both float kinds at once. *)
+Theorem C13_bits_roundtrip32 : forall v : fval, fval_wf f32 v -> decode_bits f32 (encode_bits f32 v) = Some v.
+Proof. exact decode_encode_f32. Qed.
+Print Assumptions C13_bits_roundtrip32.
+
+Theorem C13_bits_roundtrip_both : forall (w32 : bool) (v : fval),
+  fval_wf (fmt_of w32) v -> decode_bits (fmt_of w32) (encode_bits (fmt_of w32) v) = Some v.
+Proof. exact decode_encode. Qed.
+Print Assumptions C13_bits_roundtrip_both.
+
+(* ---------------------------------------------------------------- the executable rounding function *)
+(* 13. [round_ne] (the rounding function of the faithful model: log2 + one division, then at most one step up)
+       is TOTAL and CORRECT for every format with at least 2 bits of precision and EVERY rational (zero, subnormal
+       range, binade boundaries, overflow to infinity included): it returns a value, and that value is accepted
+       by the checker — hence [rounds_to] by theorem 1.  By proof for all inputs, not by testing. *)
+Theorem C13_round_ne_correct : forall (f : fmt), fmt_ok f -> 2 <= fprec f -> forall (q : Q),
+  exists v, round_ne f q = Some v /\ is_nearest f v q = true.
+Proof. exact round_ne_correct. Qed.
+Print Assumptions C13_round_ne_correct.
+
+Theorem C13_round_ne_rounds_to : forall (f : fmt), fmt_ok f -> 2 <= fprec f -> forall (q : Q),
+  exists v, round_ne f q = Some v /\ rounds_to f v q.
+Proof. exact round_ne_rounds_to. Qed.
+Print Assumptions C13_round_ne_rounds_to.
+
+(* ... and complete: whatever the checker accepts for q is what round_ne returns (up to the sign of zero). *)
+Theorem C13_round_ne_complete : forall (f : fmt), fmt_ok f -> 2 <= fprec f -> forall (q : Q) (v' : fval),
+  is_nearest f v' q = true -> exists v, round_ne f q = Some v /\ fval_eqv v v'.
+Proof. exact round_ne_complete. Qed.
+Print Assumptions C13_round_ne_complete.
+
+(* consequence for C13_holds: for a decimal integer / float body the faithful model predicts exactly one double,
+   the correctly rounded one (C13_holds is not vacuous there and does not rest on an untested round_ne). *)
+Theorem C13_model_decimal_prediction : forall (b : body) (q : Q),
+  (is_int_body b = true \/ exists w fr, b = BFloat w fr) -> body_Q b = Some q ->
+  exists v, impl_f64_abs b = [v] /\ is_nearest f64 v q = true /\ rounds_to f64 v q.
+Proof. exact impl_f64_abs_decimal. Qed.
+Print Assumptions C13_model_decimal_prediction.
+
+(* the finite clause of [rounds_to] does not mention the overflow threshold; the checker enforces it *)
+Theorem C13_is_nearest_fin_in_range : forall (f : fmt) (s : bool) (M e : Z) (q : Q),
+  fmt_ok f -> is_nearest f (FFin s M e) q = true -> (Qabs q < max_plus_half f)%Q.
+Proof. exact is_nearest_fin_in_range. Qed.
+Print Assumptions C13_is_nearest_fin_in_range.
+
+(* ---------------------------------------------------------------- link to Flocq's standard rounding *)
+(* These theorems live over Coq's classical real numbers: their Print Assumptions list the standard axioms of
+   the Reals library (and nothing else); everything above is closed under the global context.
+   Flocq's format for a fmt f is FLT with prec = fprec f and emin = - fscale f (binary64: 53 and
+   3 - 1024 - 53 = -1074); [round radix2 (FLT_exp emin prec) ZnearestE] is Flocq's round-to-nearest-even with
+   unbounded exponent range upwards, hence the hypothesis that q is below the overflow threshold
+   (largest finite + half an ulp), which the checker enforces (C13_is_nearest_fin_in_range). *)
+
+(* 14. Every format: if v = (s, M, e) is a correctly rounded image of q in the sense of [rounds_to], then the real
+       value of v IS Flocq's rounding of q. *)
+Theorem C13_rounds_to_flocq : forall (f : fmt) (s : bool) (M e : Z) (q : Q),
+  fmt_ok f -> 2 <= fprec f ->
+  rounds_to f (FFin s M e) q -> (Qabs q < max_plus_half f)%Q ->
+  Q2R (fin_Q f s M e) = round radix2 (FLT_exp (- fscale f) (fprec f)) ZnearestE (Q2R q).
+Proof. exact rounds_to_flocq. Qed.
+Print Assumptions C13_rounds_to_flocq.
+
+(* the same in predicate form: the value is a member of Flocq's format and THE nearest-even rounding point *)
+Theorem C13_rounds_to_flocq_pt : forall (f : fmt) (s : bool) (M e : Z) (q : Q),
+  fmt_ok f -> 2 <= fprec f ->
+  rounds_to f (FFin s M e) q -> (Qabs q < max_plus_half f)%Q ->
+  generic_format radix2 (FLT_exp (- fscale f) (fprec f)) (Q2R (fin_Q f s M e)) /\
+  Rnd_NE_pt radix2 (FLT_exp (- fscale f) (fprec f)) (Q2R q) (Q2R (fin_Q f s M e)).
+Proof. exact rounds_to_flocq_pt. Qed.
+Print Assumptions C13_rounds_to_flocq_pt.
+
+(* 15. binary64 (prec 53, emax 1024, emin = 3 - emax - prec) and binary32 (24, 128), numbers spelled out *)
+Theorem C13_rounds_to_flocq64 : forall (s : bool) (M e : Z) (q : Q),
+  rounds_to f64 (FFin s M e) q -> (Qabs q < max_plus_half f64)%Q ->
+  Q2R (fin_Q f64 s M e) = round radix2 (FLT_exp (3 - 1024 - 53) 53) ZnearestE (Q2R q) /\
+  Q2R (fin_Q f64 s M e) = F2R (Float radix2 (if s then - M else M) (e - 1074)).
+Proof. exact rounds_to_flocq64. Qed.
+Print Assumptions C13_rounds_to_flocq64.
+
+Theorem C13_rounds_to_flocq32 : forall (s : bool) (M e : Z) (q : Q),
+  rounds_to f32 (FFin s M e) q -> (Qabs q < max_plus_half f32)%Q ->
+  Q2R (fin_Q f32 s M e) = round radix2 (FLT_exp (3 - 128 - 24) 24) ZnearestE (Q2R q) /\
+  Q2R (fin_Q f32 s M e) = F2R (Float radix2 (if s then - M else M) (e - 149)).
+Proof. exact rounds_to_flocq32. Qed.
+Print Assumptions C13_rounds_to_flocq32.
+
+(* 16. What the judge's `ok nearest-f64` means in Flocq's terms: the bit pattern is a finite double whose value is
+       Flocq's rounding of the literal's rational, or an infinity of q's sign with |q| at/beyond the threshold. *)
+Theorem C13_is_nearest_flocq : forall (f : fmt) (s : bool) (M e : Z) (q : Q),
+  fmt_ok f -> 2 <= fprec f -> is_nearest f (FFin s M e) q = true ->
+  Q2R (fin_Q f s M e) = round radix2 (FLT_exp (- fscale f) (fprec f)) ZnearestE (Q2R q).
+Proof. exact is_nearest_flocq. Qed.
+Print Assumptions C13_is_nearest_flocq.
+
+Theorem C13_is_nearest_bits_flocq64 : forall (bits : Z) (q : Q),
+  is_nearest_bits f64 bits q = true ->
+  (exists s M e, decode_bits f64 bits = Some (FFin s M e) /\
+     Q2R (fin_Q f64 s M e) = round radix2 (FLT_exp (3 - 1024 - 53) 53) ZnearestE (Q2R q)) \/
+  (exists s, decode_bits f64 bits = Some (FInf s) /\ (max_plus_half f64 <= Qabs q)%Q /\ s = (Qnum q <? 0)).
+Proof. exact is_nearest_bits_flocq64. Qed.
+Print Assumptions C13_is_nearest_bits_flocq64.
+
+(* 17. The executable rounding function of the model computes Flocq's rounding (finite results), and returns
+       infinity exactly in the overflow region. *)
+Theorem C13_round_ne_flocq : forall (f : fmt) (q : Q),
+  fmt_ok f -> 2 <= fprec f ->
+  exists v, round_ne f q = Some v /\
+    match v with
+    | FFin s M e => Q2R (fin_Q f s M e) = round radix2 (FLT_exp (- fscale f) (fprec f)) ZnearestE (Q2R q)
+    | FInf s => (max_plus_half f <= Qabs q)%Q /\ s = (Qnum q <? 0)
+    | FNan => False
+    end.
+Proof. exact round_ne_flocq. Qed.
+Print Assumptions C13_round_ne_flocq.
+
+(* non-vacuity of 14-16: 0.1 and its double 0x3FB999999999999A satisfy the hypotheses *)
+Example C13_example_flocq :
+  rounds_to f64 (FFin false 7205759403792794 1018) (1 # 10) /\ (Qabs (1 # 10) < max_plus_half f64)%Q /\
+  decode_bits f64 4591870180066957722 = Some (FFin false 7205759403792794 1018).
+Proof. exact flocq_example. Qed.
+Print Assumptions C13_example_flocq.
